@@ -84,11 +84,21 @@ pub fn gen_case(t: &mut Tape) -> Case {
     let obs = 0;
     if t.chance(1, 3) {
         unique_size += 1 + t.below(3);
+        let mut fields = vec![Field::new("bytes", Ty::Unk(unique_size))];
+        if t.chance(1, 2) {
+            // the local definition mentions the contested name itself (a list node): inside it the name
+            // binds like anywhere else in the module. Its size stays apart from every other candidate's.
+            fields = vec![
+                Field::new("bytes", Ty::Unk(40 + unique_size)),
+                Field::new("next", Ty::Named(name.clone()).mptr()),
+                Field::new("all", Ty::Named(name.clone()).cptr().arr(2)),
+            ];
+        }
         prog.mods[obs].items.push(Item::Type(TypeDef {
             vis: true,
             name: name.clone(),
             packed: true,
-            fields: vec![Field::new("bytes", Ty::Unk(unique_size))],
+            fields,
             ..Default::default()
         }));
     }
@@ -150,7 +160,7 @@ impl Prop for Scoping {
         "C11/scoping".into()
     }
     fn rule(&self) -> String {
-        "2-5 modules with paths of depth 1-3; the same short name (also a built-in's name) defined in several of them as packed types / extern types of pairwise distinct sizes; modules added in the given order (observer first) or shuffled; an observer module with an optional local definition and 0-5 interleaved `use path::Name` / `use path` imports (some dangling, some for a decoy). Oracle: reference binding (by-name import, last wins > built-in > same module > module imports in order) decides; the resolved size of `Obs` equals size(D)*3 + pointer width, and the emitted field, pointee, array element, parameter, return and extern-value types are exactly the fully qualified path of D (syn); no binding => Err. Non-trivial: >= 2 candidate definitions reachable through different rules".into()
+        "2-5 modules with paths of depth 1-3; the same short name (also a built-in's name) defined in several of them as packed types / extern types of pairwise distinct sizes; modules added in the given order (observer first) or shuffled; an observer module with an optional local definition (which may itself mention the name in pointer fields) and 0-5 interleaved `use path::Name` / `use path` imports (some dangling, some for a decoy). Oracle: reference binding (by-name import, last wins > built-in > same module > module imports in order) decides; the resolved size of `Obs` equals size(D)*3 + pointer width, and the emitted field, pointee, array element, parameter, return and extern-value types are exactly the fully qualified path of D (syn); no binding => Err. Non-trivial: >= 2 candidate definitions reachable through different rules".into()
     }
     fn gen(&self, t: &mut Tape) -> Case {
         gen_case(t)
@@ -241,6 +251,21 @@ impl Prop for Scoping {
                             }
                         } else {
                             problems.push("struct Obs missing".into());
+                        }
+                        // a local definition of the name that mentions the name in its own fields
+                        if let Some(local) = c.prog.mods[c.obs].types().find(|t| t.name == c.name && t.fields.iter().any(|f| f.name == "next")) {
+                            match v.strukt(&local.name) {
+                                Some(s) => {
+                                    for (f, want) in [("next", format!("*mut{want_ty}")), ("all", format!("[*const{want_ty};2]"))] {
+                                        match s.fields.iter().find(|x| x.name == f) {
+                                            Some(fv) if fv.ty == want => {}
+                                            Some(fv) => problems.push(format!("field {}.{f} of the local definition: `{}` instead of `{want}`", local.name, fv.ty)),
+                                            None => problems.push(format!("field {}.{f} missing", local.name)),
+                                        }
+                                    }
+                                }
+                                None => problems.push(format!("local struct {} missing", local.name)),
+                            }
                         }
                         match v.method("Obs", "m") {
                             Some(mv) => {
